@@ -110,7 +110,9 @@ CLAIMED = {
        'recovers the message with the envelope that was written and a meta that is exactly what the completed operations made of it, or that '
        'with the interrupted operation applied too); metaAfter_attempts (the recovered attempt counter counts exactly the completed increments); restarted_queue_schedules_acknowledged (C04 o C12: a queue '
        'started on what a fresh DiskStorage loads from the directories after the crash finds the message, its announcement is a step of the scheduler '
-       'model of C12, and after it the message is known, stored and in the timetable with the loop due to wake). Tied to the code by interposing os.rename/os.remove/mkstemp/chunk '
+       'model of C12, and after it the message is known, stored and in the timetable with the loop due to wake); restarted_queue_never_loses (C04 o C01: the '
+       'composed queue machine started on the recovered ids, due times and not-yet-delivered recipients keeps every recipient the acknowledged message still '
+       'lists in exactly one of delivered / failed for good / outstanding with a next step, in every reachable state). Tied to the code by interposing os.rename/os.remove/mkstemp/chunk '
        'writes of the real DiskStorage (real pyaio), copying the directories at EVERY effect boundary of every operation (also with two operations '
        'running concurrently) and reopening each copy with a fresh DiskStorage (load + get), compared with the model and monitored directly.',
   ref='6/C04', technique='Lean 4 proof (file-system effect prefixes, frame lemmas) + crash-point enumeration of the real DiskStorage vs the model',
